@@ -3,6 +3,7 @@ import SamlModel.Model.ChkDriver
 import SamlModel.Model.SsoDriver
 import SamlModel.Model.CbDriver
 import SamlModel.Model.SloDriver
+import SamlModel.Model.AqDriver
 import SamlModel.Exec.C16
 /-! Driver.step: dispatch of one protocol line.  Unknown or unparsable ops yield `bad-op`. -/
 namespace Driver
@@ -16,6 +17,7 @@ def step (line : String) : String :=
   | "sso" :: args => (SsoDriver.run args).getD "bad-op"
   | "cb" :: args => (CbDriver.run args).getD "bad-op"
   | "slo" :: args => (SloDriver.run args).getD "bad-op"
+  | "aq" :: args => (AqDriver.run args).getD "bad-op"
   | "chk" :: args => (ChkDriver.run args).getD "bad-op"
   | _ => "bad-op"
 
